@@ -873,6 +873,9 @@ func (w *World) execFlush() bool {
 	if w.opt.Decode {
 		w.decodeCheck()
 	}
+	if w.opt.TreeCheck {
+		w.persistedTreeCheck()
+	}
 	if w.lazy != nil {
 		w.lazy.noteFlush(w)
 	}
